@@ -585,12 +585,13 @@ def run(ctx):
             pst["with_accept_during_shutdown"] += late > 0
             pst["accepted_during_shutdown"] += late
             pst["still_blocked_at_end"] += sum(e["n"] for e in b if e["ev"] == "blocked")
-        if pst["with_parked"] < pst["scenarios"] // 2 or pst["with_accept_during_shutdown"] < pst["scenarios"] // 3:
-            raise Machinery("dead driver (shutdown of a backed-up route): %s" % json.dumps(pst))
         ctx.cov["shutdown_with_parked_callers"] = pst
 
         nviol = judge(ctx, events, scens, pool)
         if nviol == 0:
+            # (a route that breaks the property may never get there; then the violations are the result)
+            if pst["with_parked"] < pst["scenarios"] // 2 or pst["with_accept_during_shutdown"] < pst["scenarios"] // 3:
+                raise Machinery("dead driver (shutdown of a backed-up route): %s" % json.dumps(pst))
             selftest_binding(ctx, events)
 
     cov = ctx.cov
